@@ -189,6 +189,7 @@ static void do_rt(int argc, char** a, int with_recon)
 	struct errstat st; err_stats(ty, copy, dec, n < dn ? n : dn, e, mn, mx, &st);
 	printf("st=ok n=%zx dn=%zx viol=%zx first=%zx maxerr=%" PRIx64 " e=%" PRIx64 " outside=%zx inmod=%d amax=%" PRIx64,
 	       n, dn, st.viol, st.first == (size_t)-1 ? 0 : st.first, bits_of_dbl(st.maxerr), bits_of_dbl(e), st.outside, input_modified, bits_of_dbl(st.amax));
+	{ uint64_t h = 1469598103934665603ULL; for (size_t i = 0; i < n * es; i++) { h ^= ((unsigned char*)dec)[i]; h *= 1099511628211ULL; } printf(" dig=%" PRIx64, h); }
 	if (with_recon) {
 		printf(" recon=");
 		if (n == 0) printf("_");
@@ -385,7 +386,44 @@ static void op_ep(int argc, char** a)
 	free(cb); free(cdec); free(vb); free(vdec); free(data);
 }
 
+
+/* ---------- C12 ---------- */
+static unsigned char* make_bytes(const char* spec, size_t* n_out)
+{
+	size_t n = 0; unsigned char* b;
+	if (spec[0] == 'x') { uint64_t* l; n = parse_list(spec + 2, &l); b = (unsigned char*)malloc(n + 16); for (size_t i = 0; i < n; i++) b[i] = (unsigned char)l[i]; free(l); }
+	else {
+		uint64_t seed = 0; unsigned long nn = 0;
+		if (spec[0] == 'z') sscanf(spec + 2, "%lx", &nn); else sscanf(spec + 2, "%" SCNx64 ":%lx", &seed, &nn);
+		n = nn; b = (unsigned char*)malloc(n + 16); uint64_t s = seed * 2654435761ULL + 99;
+		for (size_t i = 0; i < n; i++) {
+			if (spec[0] == 'z') b[i] = 0;
+			else if (spec[0] == 'r') b[i] = (unsigned char)(lcg(&s) >> 3);
+			else if (spec[0] == 'p') b[i] = (unsigned char)((i % 37) * 7 + (lcg(&s) % 4 == 0 ? 1 : 0));
+			else b[i] = (i < 3) ? (unsigned char)versionNumber[i] : (unsigned char)(lcg(&s) >> 5);   /* 's': SZ-like prefix */
+		}
+	}
+	*n_out = n; return b;
+}
+/* lz <backend: 0 zlib, 1 zstd> <level> <bytes spec>: sz_lossless_compress, sniff, sz_lossless_decompress */
+static void op_lz(int argc, char** a)
+{
+	int be = (int)hx(a[0]); int level = (int)shx(a[1]); size_t n; unsigned char* in = make_bytes(a[2], &n);
+	unsigned char* c = NULL; uint64_t cs = sz_lossless_compress(be, level, in, n, &c);
+	int sn = is_lossless_compressed_data(c, cs);
+	printf("n=%zx csize=%" PRIx64 " head=%x,%x,%x,%x sniff=%d ", n, cs, cs > 0 ? c[0] : 0, cs > 1 ? c[1] : 0, cs > 2 ? c[2] : 0, cs > 3 ? c[3] : 0, sn); fflush(R);
+	unsigned char* d = NULL; uint64_t ds = sz_lossless_decompress(be, c, cs, &d, n + 64);
+	int same = d && !memcmp(d, in, n);
+	printf("rt=%d dsize_ok=%d\n", same, be == 0 ? ds == n : ds == n + 64);
+	free(in); free(c); if (d) free(d);
+}
+static void op_sniff(int argc, char** a)
+{
+	size_t n; char spec[1 << 16]; snprintf(spec, sizeof spec, "x:%s", a[0]); unsigned char* b = make_bytes(spec, &n);
+	printf("sniff=%d\n", is_lossless_compressed_data(b, n)); free(b);
+}
+
 struct op more_ops[] = {
-	{"rt", op_rt}, {"rtr", op_rtr}, {"fdim", op_fdim}, {"huff", op_huff}, {"rw", op_rw}, {"tr", op_tr}, {"ep", op_ep},
+	{"rt", op_rt}, {"rtr", op_rtr}, {"fdim", op_fdim}, {"huff", op_huff}, {"rw", op_rw}, {"tr", op_tr}, {"lz", op_lz}, {"sniff", op_sniff}, {"ep", op_ep},
 	{NULL, NULL}
 };
